@@ -29,7 +29,8 @@ def arg (toks : List String) (k : String) : String := (arg? toks k).getD ""
 def commaList (s : String) : List String := if s == "-" || s == "" then [] else s.splitOn ","
 
 /-- `e12` ↦ 12 ; unknown names (x…, nil) ↦ 0 -/
-def entryNum (s : String) : Nat := if s.startsWith "e" then ((s.drop 1).toString.toNat?).getD 0 else 0
+def entryNum (s : String) : Nat :=
+  if s.startsWith "e" then (((s.drop 1).toString.replace "!" "").toNat?).getD 0 else 0
 
 def namesToNums (s : String) : List Nat := (commaList s).map entryNum
 
@@ -63,6 +64,8 @@ def parseEntry (toks : List String) (hash : Nat) : Entry :=
     op := parseOp toks
     ident := peerNum (arg toks "ident")
     key := peerNum (arg toks "key")
+    identOk := (match arg? toks "ipk" with | some x => peerNum x == peerNum (arg toks "ident") | none => true)
+                && (arg? toks "isig").getD "1" == "1"
     sigOk := (arg? toks "sig").getD "1" == "1"
     hashOk := (arg? toks "hashok").getD "1" == "1" }
 
